@@ -52,6 +52,12 @@ Definition pl_profile_terms (start_idx shut_idx T i : nat) (cap : Q) (sr sd : ve
   flat_map (fun j => if Nat.leb j i then [((start_idx + i - j)%nat, Qred (cap - nth j sr 0))] else []) (seq 0 (List.length sr)) ++
   flat_map (fun j => if Nat.ltb (i + j + 1) T then [((shut_idx + i + j + 1)%nat, Qred (cap - nth j sd 0))] else []) (seq 0 (List.length sd)).
 
+(* release terms of the ramp rows of step t: the shutdown flags of the next steps (lower row), the start flags of the last steps (upper row) *)
+Definition ramp_shut_terms (shut_idx T t Dn : nat) (coef : Q) : srow :=
+  flat_map (fun i => if Nat.ltb (t + i) T then [((shut_idx + t + i)%nat, coef)] else []) (seq 0 Dn).
+Definition ramp_start_terms (start_idx t S : nat) (coef : Q) : srow :=
+  flat_map (fun i => if Nat.leb i t then [((start_idx + t - i)%nat, coef)] else []) (seq 0 S).
+
 Definition plant (g : grid) (rg : rgrid) (cp : contract_p) (mx mn : list take) (p : plant_p) : option aprob :=
   obind (contract_core g rg cp mx mn) (fun base =>
   let P := ap_lp base in
@@ -136,10 +142,10 @@ Definition plant (g : grid) (rg : rgrid) (cp : contract_p) (mx mn : list take) (
         let last := Qred (pl_last p * dt0) in
         flat_map (fun t =>
            [ {| r_a := vrow t 1 (qnth cf t) ++ vrow (t - 1)%nat (-1) (qnth cf (t - 1)%nat) ++ (if inc_on then [((on_idx + t - 1)%nat, rmp)] else []) ++
-                       flat_map (fun i => if Nat.ltb (t + i) T then [((shut_idx + t + i)%nat, Qred (qnth maxc (t - 1)%nat - rmp))] else []) (seq 0 Dn);
+                       ramp_shut_terms shut_idx T t Dn (Qred (qnth maxc (t - 1)%nat - rmp));
                 r_t := RL; r_b := if inc_on then 0 else - rmp |};
              {| r_a := vrow t 1 (qnth cf t) ++ vrow (t - 1)%nat (-1) (qnth cf (t - 1)%nat) ++ (if inc_on then [((on_idx + t)%nat, - rmp)] else []) ++
-                       flat_map (fun i => if Nat.leb i t then [((start_idx + t - i)%nat, Qred (rmp - qnth maxc t))] else []) (seq 0 S);
+                       ramp_start_terms start_idx t S (Qred (rmp - qnth maxc t));
                 r_t := RU; r_b := if inc_on then 0 else rmp |} ]) (seq 1 (T - 1)%nat) ++
         [ {| r_a := vrow 0%nat 1 (qnth cf 0%nat) ++ map (fun i => ((shut_idx + i)%nat, Qred (last - rmp))) (seq 0 Dn);
              r_t := RL; r_b := if Nat.eqb (pl_tar p) 0 then last else Qred (last - rmp) |};
